@@ -60,7 +60,7 @@ def g_world(world, mod):
         specs.append('{| l_setup := %s; l_teardown := %s; l_tsetup := %s; l_tteardown := %s |}' % (
             sc('setUp'), sc('tearDown'), g_bool('testSetUp' in h), g_bool('testTearDown' in h)))
     tests = []
-    for T in world['tests']:
+    for T in ([] if world.get('select_none') else world['tests']):
         tests.append('{| t_layer := %d; t_deco := %s; t_xf := %s; t_su := %s; t_subs := %s; t_body := %s; t_td := %s; t_cl := %s; t_count := %d |}' % (
             lidx(world, T['layer']), g_bool(T.get('deco_skip', False)), g_bool(T.get('xf', False)),
             po(T.get('setUp', 'ok')), g_list([po(x) for x in T.get('subs', [])]), po(T.get('body', 'ok')),
